@@ -293,6 +293,18 @@ def dedup_prefixes(src, dst, keep=None, sample=None, rnd=None):
     return n_in, len(maximal), len(out)
 
 
+def load_ndjson(path):
+    """Lines of a worker's output; a line cut short by the worker's death is dropped (the caller sees a missing result)."""
+    out = []
+    for l in open(path):
+        if l.strip():
+            try:
+                out.append(json.loads(l))
+            except ValueError:
+                pass
+    return out
+
+
 def replay(beh_path, mode="inline", nproc=NPROC, base_seed=None, fs=True, timeout=3600, chunk=400, exe_name="session"):
     """Replays the behaviours of a file through `session` workers. Returns the list of result dicts."""
     exe = build(exe_name)
@@ -331,7 +343,7 @@ def replay(beh_path, mode="inline", nproc=NPROC, base_seed=None, fs=True, timeou
                     continue
                 fh.close()
                 err = p.stderr.read().decode(errors="replace")
-                got = [json.loads(l) for l in open(outp) if l.strip()]
+                got = load_ndjson(outp)
                 per = 2 if mode == "both" else 1
                 if p.returncode == 3 and got:
                     # the worker left blocked goroutines behind (a detected hang) and asks for a fresh process
@@ -513,6 +525,16 @@ def main_wrapper(fn, prop, tier):
         except Exception:
             pass
         rc = 2 if not chk.violations else 1
+    except Exception as e:  # a defect of the machinery itself is never a verdict about the code
+        import traceback
+        traceback.print_exc()
+        print("INCONCLUSIVE property=%s: the check itself failed: %r" % (prop, e))
+        chk.extra["inconclusive"] = "internal error: %r" % (e,)
+        try:
+            chk.finish()
+        except Exception:
+            pass
+        rc = 2 if not chk.violations else 1
     finally:
         subprocess.run(["pkill", "-f", "tlc2.TL[C]"], stdout=subprocess.DEVNULL, stderr=subprocess.DEVNULL) if False else None
     print("%s %s: exit %d  states=%d transitions=%d replayed/validated=%d drift=%d wall=%.0fs" % (
@@ -627,7 +649,7 @@ def run_conc(programs, mode="random", runs=20, preempt=2, nproc=NPROC, timeout=3
                     still.append((p, fh, outp, frm, cnt))
                     continue
                 fh.close()
-                got = [json.loads(l) for l in open(outp) if l.strip()]
+                got = load_ndjson(outp)
                 results.extend(got)
                 if p.returncode != 0:
                     err = p.stderr.read().decode(errors="replace")
@@ -727,7 +749,7 @@ def run_wprun(scenarios, mode="random", runs=20, preempt=2, nproc=NPROC, timeout
                     still.append((p, fh, outp, i))
                     continue
                 fh.close()
-                results.extend(json.loads(l) for l in open(outp) if l.strip())
+                results.extend(load_ndjson(outp))
                 if p.returncode == 3 and restarts.get(i, 0) < 3 and mode == "random":
                     restarts[i] = restarts.get(i, 0) + 1
                     pending.append(i)
